@@ -179,6 +179,11 @@ int Symbols::set(const char *name, uint32_t address)
     }
 
     entry = find(name);
+
+    // The table is locked in pass 2, nothing was added: pass 1 did not
+    // see this name.
+    if (entry == nullptr) { return -2; }
+
     entry->scope = 0;
     entry->flag_rw = true;
   }
